@@ -66,7 +66,25 @@ func sliceElems(v ssa.Value) ([]ssa.Value, bool) {
 				return sliceElems(x.X)
 			}
 		}
+	case *ssa.Parameter:
+		if arg := inlineArg(x); arg != nil {
+			return sliceElems(arg)
+		}
 	case *ssa.Call:
+		// a single-site helper that returns one slice literal (csvRecord(r))
+		if h := x.Call.StaticCallee(); h != nil && inlineAware && curProgram != nil && singleSite(curProgram, h) == x {
+			var ret ssa.Value
+			n := 0
+			eachInstr(h, func(i ssa.Instruction) {
+				if r, ok := i.(*ssa.Return); ok && len(r.Results) == 1 {
+					ret = r.Results[0]
+					n++
+				}
+			})
+			if n == 1 {
+				return sliceElems(ret)
+			}
+		}
 		if callName(&x.Call) == "builtin:append" && len(x.Call.Args) == 2 {
 			a, ok1 := sliceElems(x.Call.Args[0])
 			b, ok2 := sliceElems(x.Call.Args[1])
